@@ -19,6 +19,9 @@ pub fn exec(op: &str, a: &Value) -> Option<Value> {
         "TimeDuration.new" => run(|| { let d = &a["dur"]; TimeDuration::new(ff(&d["h"]), ff(&d["mi"]), ff(&d["s"]), ff(&d["ms"]), ff(&d["us"]), ff(&d["ns"])) },
             |d| json!({"h": js::big_f64(d.hours.as_inner()), "mi": js::big_f64(d.minutes.as_inner()), "s": js::big_f64(d.seconds.as_inner()), "ms": js::big_f64(d.milliseconds.as_inner()), "us": js::big_f64(d.microseconds.as_inner()), "ns": js::big_f64(d.nanoseconds.as_inner())})),
         "Duration.negated" => run(|| Ok(arg_duration(&a["recv"])?.negated()), p_duration),
+        // the public unchecked constructor: a day count and a time part (the time part alone is validated by TimeDuration::new)
+        "Duration.fromDayAndTime" => run(|| { let d = &a["dur"]; let t = TimeDuration::new(ff(&d["h"]), ff(&d["mi"]), ff(&d["s"]), ff(&d["ms"]), ff(&d["us"]), ff(&d["ns"]))?;
+            Ok(Duration::from_day_and_time(ff(&d["d"]), &t)) }, p_duration),
         "Duration.timeInRange" => run(|| Ok(arg_duration(&a["recv"])?.is_time_within_range()), |b| json!(*b)),
         "Duration.abs" => run(|| Ok(arg_duration(&a["recv"])?.abs()), p_duration),
         "Duration.sign" => run(|| Ok(arg_duration(&a["recv"])?.sign()), |s| json!(*s as i8)),
